@@ -3,7 +3,7 @@
    message characters are class tokens owned by the harness (TLC integers are 32-bit, its JSON ASCII). *)
 EXTENDS Attrs, Json
 
-CONSTANT Mode    \* "shapes" | "numbers" | "messages" | "companions"
+CONSTANT Mode    \* "shapes" | "numbers" | "messages" | "companions" | "msgsites"
 VARIABLE c
 
 None == [p |-> FALSE, min |-> "none", max |-> "none", hasMsg |-> FALSE, msg |-> <<>>]
@@ -70,7 +70,25 @@ CompanionCases ==
     \cup { [kind |-> "v", tc |-> "number", split |-> "one_attr", v |-> b, comp |-> cp, compFirst |-> cf]
         : b \in CompNumBases, cp \in Companions, cf \in BOOLEAN }
 
+\* messages with characters that need escaping, on EVERY validator and bound configuration (a message is rendered once
+\* per emitted constraint call: .min and .max of one validator carry the same text)
+EscMsgs == { <<x>> : x \in {"q", "bs", "ap", "u2"} } \cup { <<x, y>> : x \in {"q", "bs", "a"}, y \in {"q", "bs", "u3"} }
+           \cup { <<"a", "q", "sp", "bs", "bs", "sp", "ap", "u4">> }
+MsgSites ==
+    { [kind |-> "v", tc |-> "string", split |-> "one_attr",
+       v |-> [length |-> [p |-> TRUE, min |-> mn, max |-> mx, hasMsg |-> TRUE, msg |-> m], range |-> None, email |-> NoFlag, url |-> NoFlag]]
+      : m \in EscMsgs, <<mn, mx>> \in {<<"n5", "none">>, <<"none", "nbig">>, <<"n0", "n5">>} }
+    \cup
+    { [kind |-> "v", tc |-> "number", split |-> "one_attr",
+       v |-> [length |-> None, range |-> [p |-> TRUE, min |-> mn, max |-> mx, hasMsg |-> TRUE, msg |-> m], email |-> NoFlag, url |-> NoFlag]]
+      : m \in EscMsgs, <<mn, mx>> \in {<<"nneg5", "none">>, <<"none", "n1e3">>, <<"nhalf", "n1e3">>} }
+    \cup
+    { [kind |-> "v", tc |-> "string", split |-> "one_attr",
+       v |-> [length |-> None, range |-> None, email |-> [p |-> TRUE, hasMsg |-> TRUE, msg |-> m], url |-> NoFlag]]
+      : m \in EscMsgs }
+
 Space == CASE Mode = "shapes" -> {s \in Shapes : ShapeOk(s)}
+           [] Mode = "msgsites" -> MsgSites
            [] Mode = "companions" -> CompanionCases
            [] Mode = "numbers" -> Numbers
            [] Mode = "messages" -> Messages
